@@ -2,6 +2,7 @@ import PynnVerif.Proofs.Metrics
 import PynnVerif.Proofs.MetricsBridge
 import PynnVerif.Proofs.SparseMetrics
 import PynnVerif.Gen.Tables
+import PynnVerif.Proofs.GenMetrics
 
 /-!
 # C09 — surrogates preserve order and corrections invert
@@ -552,6 +553,42 @@ theorem alternatives_pairs_registered :
     decide +kernel
   exact ⟨fun e he => List.contains_iff_mem.mp (List.all_eq_true.mp h1 e he),
          fun e he => List.contains_iff_mem.mp (List.all_eq_true.mp h2 e he)⟩
+
+/-! ## 7. the same, on the translated source text of `distances.py`
+
+`Gen/MetricKernels.lean` is regenerated from the source of `distances.py` on every run
+(`harness/translate_metrics.py`) and `Proofs/GenMetrics.lean` proves each translated kernel equal
+to the model (`Props/C07.lean`, `kernel_*_refines`); composing with the theorems above: -/
+
+/-- **cosine, on the translated kernels**: on the live range `⟨x,y⟩ > 0` the translated
+`alternative_cosine` followed by the translated ufunc `correct_alternative_cosine` returns exactly
+what the translated `cosine` returns (all three without out-of-bounds access), and that value is
+below the clamp `1` (`cosine_surrogate_live`). -/
+theorem kernel_cosine_correction (x y : Array ℝ) (h : x.size = y.size) (fuel : Nat)
+    (hf : x.size + 1 ≤ fuel) (hl : 0 < dotProd x.toList y.toList) :
+    ∃ d c, GenMetric.alternative_cosine fuel x y = some d ∧
+      GenMetric.correct_alternative_cosine fuel d = some c ∧
+      GenMetric.cosine fuel x y = some c ∧ c < 1 := by
+  have hs := cosine_surrogate_live x.toList y.toList hl
+  refine ⟨_, _, GenMetricProofs.alternative_cosine_refines x y h fuel hf,
+    GenMetricProofs.correct_alternative_cosine_refines fuel _, ?_, ?_⟩
+  · rw [GenMetricProofs.cosine_refines x y h fuel hf, hs.2.2.2.1]
+  · rw [hs.2.2.2.1]; exact hs.2.2.2.2
+
+/-- **euclidean, on the translated kernels**: `np.sqrt` of the translated `squared_euclidean` is the
+translated `euclidean`, and the two order candidates alike (`sqrt_squared_euclidean`,
+`squared_euclidean_order`). -/
+theorem kernel_squared_euclidean_correction (x y z : Array ℝ) (hy : x.size = y.size)
+    (hz : x.size = z.size) (fuel : Nat) (hf : x.size + 1 ≤ fuel) :
+    ∃ sy sz ey ez, GenMetric.squared_euclidean fuel x y = some sy ∧
+      GenMetric.squared_euclidean fuel x z = some sz ∧
+      GenMetric.euclidean fuel x y = some ey ∧ GenMetric.euclidean fuel x z = some ez ∧
+      Real.sqrt sy = ey ∧ 0 ≤ sy ∧ (sy ≤ sz ↔ ey ≤ ez) :=
+  ⟨_, _, _, _, GenMetricProofs.squared_euclidean_refines x y hy fuel hf,
+    GenMetricProofs.squared_euclidean_refines x z hz fuel hf,
+    GenMetricProofs.euclidean_refines x y hy fuel hf, GenMetricProofs.euclidean_refines x z hz fuel hf,
+    (sqrt_squared_euclidean _ _).1, (sqrt_squared_euclidean _ _).2,
+    (squared_euclidean_order _ _ _).1⟩
 
 /-! ## non-vacuity -/
 
